@@ -131,7 +131,7 @@ def parseOps (s : String) : Option Ops :=
 
 def idxList (kind : Nat) (n : Nat) : List PIdx := (List.range n).map (fun i => ⟨kind, i⟩)
 
-/-! `cf <srvTP> <strict> <cih> <rpTP>` — the Caddyfile adapter's reading of the options (see
+/-! `cf <srvTP> <strict> <cih> <rpTP> <target>` — the Caddyfile adapter's reading of the options (see
 harness/internal/c10/cf.go).  Answer `srv=… strict=… cih=… rp=… up=…` | `err`. -/
 
 def tokenChar (c : UInt8) : Bool :=
@@ -152,7 +152,8 @@ def showList (nilWord : String) : Option (List Bytes) → String
   | some l => ",".intercalate (l.map Hex.encode)
 
 def handleCF : List String → String
-  | [srvTP, strict, cih, rpTP] =>
+  | [srvTP, strict, cih, rpTP, target] =>
+    if target != "g" && target != "t" then "bad-op" else
     let st : Option (Nat × Bool) :=
       if strict == "0" then some (0, false) else if strict == "1" then some (1, false)
       else if strict == "2" then some (2, false) else if strict == "x" then some (1, true) else none
@@ -160,7 +161,15 @@ def handleCF : List String → String
     | some s, some (n, arg), some c, some r =>
       match adaptOptions s n arg c r with
       | none => "err"
-      | some a =>
+      | some a0 =>
+        -- g: global block, the one server (:80);  t: block for :8443 — that server gets the options, :80 none
+        let tgt : Option Bytes := if target == "t" then some [58, 56, 52, 52, 51] else none
+        let a := optionsFor tgt [[58, 56, 52, 52, 51]] a0
+        let other := optionsFor tgt [[58, 56, 48]] a0
+        (fun body => if target == "t" then
+            body ++ " other=" ++ (if other.srvRanges.isSome then "1" else "0") ++ (if other.strict then "1" else "0") ++
+              (if other.clientIPHeaders.isSome then "1" else "0")
+          else body) <|
         "srv=" ++ showList "nil" a.srvRanges ++ " strict=" ++ (if a.strict then "1" else "0") ++
         " cih=" ++ showList "nil" a.clientIPHeaders ++ " rp=" ++ showList "nil" (some a.rpRanges) ++
         " up=" ++ Hex.encode a.clientIPShorthand
